@@ -215,6 +215,7 @@ func RunCheck(opt Options) int {
 	start := time.Now()
 	repoRoot = opt.Repo
 	curProp = opt.Prop
+	thoroughTier = opt.Tier == "thorough"
 	cs := NewContractSet()
 	// contract files in repo
 	files := FindContractFiles(opt.Repo)
@@ -420,7 +421,9 @@ func RunCheck(opt Options) int {
 		return 2
 	}
 	// build scripts and solve in parallel
-	timeout := 20
+	// per-script solver limit: generous compared with what any claimed obligation needs on an idle machine (all are
+	// below 10 s), so that a loaded machine does not turn a proof into an alarm
+	timeout := 45
 	if opt.Tier == "thorough" {
 		timeout = 120
 	}
